@@ -13,6 +13,7 @@ import (
 	"path/filepath"
 	"strings"
 	"syscall"
+	"time"
 	"testing/iotest"
 
 	"github.com/gabriel-vasile/mimetype"
@@ -626,6 +627,10 @@ func c05Run(c *fw.Ctx, b fw.Batch) {
 				}
 			}
 		}
+		if b.Idx == 0 {
+			c05Paths(c, dir)
+			c05Fifos(c, dir)
+		}
 		// procfs: regular files that report size 0 but have content
 		for _, pf := range []string{"/proc/version", "/proc/filesystems", "/proc/cmdline", "/proc/self/cmdline", "/proc/self/comm"} {
 			content, err := os.ReadFile(pf)
@@ -652,12 +657,138 @@ func c05Run(c *fw.Ctx, b fw.Batch) {
 	}
 }
 
+// c05Paths: DetectFile must open the path it is given, as the operating system resolves
+// it (symbolic links before "..", odd names): expectation = what os.ReadFile delivers for
+// the very same path string.
+func c05Paths(c *fw.Ctx, dir string) {
+	root := filepath.Join(dir, "paths")
+	png := []byte("\x89PNG\x0d\x0a\x1a\x0a\x00\x00\x00\x0dIHDR")
+	txt := []byte("a plain text file\n")
+	pdf := []byte("%PDF-1.7\n")
+	must := func(err error) {
+		if err != nil {
+			panic("verif harness: " + err.Error())
+		}
+	}
+	must(os.MkdirAll(filepath.Join(root, "store", "2024"), 0o700))
+	must(os.MkdirAll(filepath.Join(root, "d", "sub"), 0o700))
+	must(os.WriteFile(filepath.Join(root, "store", "cover"), png, 0o600))      // what link/../cover really is
+	must(os.WriteFile(filepath.Join(root, "cover"), txt, 0o600))               // what a lexically cleaned path would open
+	must(os.WriteFile(filepath.Join(root, "store", "2024", "doc"), pdf, 0o600)) // reached through the link
+	must(os.WriteFile(filepath.Join(root, "d", "f.bin"), pdf, 0o600))
+	must(os.WriteFile(filepath.Join(root, "d", " lead"), png, 0o600))
+	must(os.WriteFile(filepath.Join(root, "d", "trail "), png, 0o600))
+	must(os.WriteFile(filepath.Join(root, "d", "new\nline"), txt, 0o600))
+	must(os.WriteFile(filepath.Join(root, "d", "ünï"), png, 0o600))
+	must(os.WriteFile(filepath.Join(root, "d", strings.Repeat("n", 250)), pdf, 0o600))
+	if os.Symlink(filepath.Join("store", "2024"), filepath.Join(root, "current")) != nil {
+		c.Count("path_cases_skipped_no_symlink", 1)
+	}
+	os.Symlink("f.bin", filepath.Join(root, "d", "link-to-f"))
+	os.Symlink("nowhere", filepath.Join(root, "d", "dangling"))
+	sep := string(filepath.Separator)
+	paths := []string{
+		root + sep + "current" + sep + ".." + sep + "cover", // store/cover (png), NOT root/cover
+		root + sep + "current" + sep + "doc",
+		root + sep + "current" + sep + ".." + sep + ".." + sep + "cover", // root/cover (text)
+		root + sep + "current" + sep + ".." + sep + "missing",
+		root + sep + "d" + sep + "sub" + sep + ".." + sep + "f.bin",
+		root + sep + "d" + sep + sep + "f.bin",
+		root + sep + "d" + sep + "." + sep + "f.bin",
+		root + sep + "d" + sep + "f.bin" + sep,       // ENOTDIR
+		root + sep + "d" + sep + "f.bin" + sep + ".", // ENOTDIR
+		root + sep + "d" + sep + " lead",
+		root + sep + "d" + sep + "trail ",
+		root + sep + "d" + sep + "new\nline",
+		root + sep + "d" + sep + "ünï",
+		root + sep + "d" + sep + strings.Repeat("n", 250),
+		root + sep + "d" + sep + strings.Repeat("n", 300), // ENAMETOOLONG
+		root + sep + "d" + sep + "link-to-f",
+		root + sep + "d" + sep + "dangling",
+		root + sep + "d" + sep + "missing" + sep + ".." + sep + "f.bin", // ENOENT although the cleaned path exists
+		"",
+	}
+	for _, pth := range paths {
+		for _, lim := range []uint32{3072, 0, 4} {
+			content, rerr := os.ReadFile(pth)
+			mimetype.SetLimit(lim)
+			m, derr := mimetype.DetectFile(pth)
+			c.Eval(1)
+			c.Count("path_spellings_detected", 1)
+			got := lib.ChainOf(m).String()
+			pl := c05Payload{Kind: "path:" + pth, In: content, Limit: lim, Entry: "DetectFilePath"}
+			key := fw.InputKey(content, lim, "DetectFile/path="+fw.Quote([]byte(strings.TrimPrefix(pth, root)), 80))
+			if rerr != nil {
+				if derr == nil || !lib.ChainOf(m).IsRootOnly() {
+					c.Violate("file-error-not-surfaced", key, fmt.Sprintf("reading %q fails (%v) but DetectFile returned (%s, %v)", strings.TrimPrefix(pth, root), rerr, got, derr), pl)
+				}
+				continue
+			}
+			want := lib.ChainOf(lib.Detect(content, lim)).String()
+			if derr != nil || got != want {
+				c.Violate("entry-points-disagree", key, fmt.Sprintf("DetectFile(%q) gives (%s, %v); the file the operating system opens for this path holds %d bytes that Detect reports as %s", strings.TrimPrefix(pth, root), got, derr, len(content), want), pl)
+			}
+		}
+	}
+}
+
+// c05Fifos: named pipes (stat size 0, not seekable, content arrives in pieces).
+func c05Fifos(c *fw.Ctx, dir string) {
+	heads := [][]byte{[]byte("\x89PNG\x0d\x0a\x1a\x0a\x00\x00\x00\x0dIHDR" + strings.Repeat("\x00", 5000)), []byte(strings.Repeat("plain text line\n", 400)), []byte(`{"type":"Feature","k":[` + strings.Repeat("1,", 3000) + `1]}`), append([]byte(strings.Repeat("text then binary ", 200)), 0, 1, 2)}
+	for hi, x := range heads {
+		for _, lim := range []uint32{3072, 8, 0, 1 << 16, uint32(len(x)), uint32(len(x) - 1)} {
+			ff := filepath.Join(dir, fmt.Sprintf("fifo-%d", hi))
+			os.Remove(ff)
+			if err := syscall.Mkfifo(ff, 0o600); err != nil {
+				c.Count("fifo_cases_skipped", 1)
+				return
+			}
+			done := make(chan struct{})
+			go func() {
+				defer close(done)
+				w, err := os.OpenFile(ff, os.O_WRONLY, 0)
+				if err != nil {
+					return
+				}
+				defer w.Close()
+				for off := 0; off < len(x); off += 1000 {
+					end := off + 1000
+					if end > len(x) {
+						end = len(x)
+					}
+					if _, err := w.Write(x[off:end]); err != nil {
+						return // the reader closed after `limit` bytes: EPIPE
+					}
+				}
+			}()
+			want := lib.ChainOf(lib.Detect(x, lim)).String()
+			mimetype.SetLimit(lim)
+			m, derr := mimetype.DetectFile(ff)
+			select {
+			case <-done:
+			case <-time.After(3 * time.Second):
+				// the library never opened the pipe: release the writer (harness liveness only, no verdict)
+				if rd, err := os.OpenFile(ff, os.O_RDONLY|syscall.O_NONBLOCK, 0); err == nil {
+					<-done
+					rd.Close()
+				}
+			}
+			os.Remove(ff)
+			c.Eval(1)
+			c.Count("fifo_files_detected", 1)
+			if derr != nil || lib.ChainOf(m).String() != want {
+				c.Violate("entry-points-disagree", fw.InputKey(x, lim, "DetectFile/fifo"), fmt.Sprintf("DetectFile on a named pipe delivering %d bytes gives (%s, %v), Detect on the same bytes gives %s (limit %d)", len(x), lib.ChainOf(m), derr, want, lim), c05Payload{Kind: "fifo", In: x, Limit: lim, Entry: "DetectFileFifo"})
+			}
+		}
+	}
+}
+
 func init() {
 	_ = syscall.EIO
 	fw.Register(&fw.Prop{
 		ID:    "C05",
 		Level: "fault_enumeration",
-		Rule: "inputs = every seed + text tails + small text documents; limits {0, 1, len-1, len, len+1, 3072, random}; chunk schedules {1, 2, 3, 7, 512, as-asked, random 1-9, random 1-2000} with occasional (0, nil) reads and data returned together with io.EOF; a preceding DetectReader under a different limit (state left behind); an error (a plain sentinel, and error values of 15 classes: deadline exceeded bare / wrapped / in a net.OpError, context errors, closed pipe, ECONNRESET, EINTR, EAGAIN, a PathError, an error whose text is \"EOF\") injected at EVERY offset 0..min(len, limit) for headers <= 600 bytes (every k-th and the last 4 offsets beyond), returned alone or together with the last bytes before it; the standard library's concrete readers (bytes.Buffer, bytes.Reader, strings.Reader, bufio.Reader, io.LimitReader, io.MultiReader, iotest one-byte / half / data-with-error readers) with their consumption checked; DetectFile over temp files for every input and limit, an empty file, procfs files (regular files whose stat size is 0), sparse files of 2 GiB … 8 GiB whose size does not fit 31 / 32 bits, a missing path, a directory (EISDIR) and /proc/self/mem (read error); streams much longer than the limit (JSON / text / CSV / NDJSON / zero fillers of limit + 1 … limit + 70000 bytes with one deciding defect at limit-1, limit-2, limit, limit/2, a page boundary …) for limits 4095 … 5 MiB with chunk sizes as-asked / 4096 / 32769 / 65536 and errors of every class injected just before, at and after the limit. The instrumented reader records bytes handed out, calls, and when the sentinel was really returned; expectations are derived from those observations. " +
+		Rule: "inputs = every seed + text tails + small text documents; limits {0, 1, len-1, len, len+1, 3072, random}; chunk schedules {1, 2, 3, 7, 512, as-asked, random 1-9, random 1-2000} with occasional (0, nil) reads and data returned together with io.EOF; a preceding DetectReader under a different limit (state left behind); an error (a plain sentinel, and error values of 15 classes: deadline exceeded bare / wrapped / in a net.OpError, context errors, closed pipe, ECONNRESET, EINTR, EAGAIN, a PathError, an error whose text is \"EOF\") injected at EVERY offset 0..min(len, limit) for headers <= 600 bytes (every k-th and the last 4 offsets beyond), returned alone or together with the last bytes before it; the standard library's concrete readers (bytes.Buffer, bytes.Reader, strings.Reader, bufio.Reader, io.LimitReader, io.MultiReader, iotest one-byte / half / data-with-error readers) with their consumption checked; DetectFile over temp files for every input and limit, an empty file, procfs files (regular files whose stat size is 0), sparse files of 2 GiB … 8 GiB whose size does not fit 31 / 32 bits, a missing path, a directory (EISDIR) and /proc/self/mem (read error), path spellings that only the operating system resolves correctly (symlink followed by '..', '//', '/./', trailing '/', names with blanks / newline / non-ASCII / 250 and 300 bytes, dangling link, empty path: expectation = what os.ReadFile delivers for the same string) and named pipes; streams much longer than the limit (JSON / text / CSV / NDJSON / zero fillers of limit + 1 … limit + 70000 bytes with one deciding defect at limit-1, limit-2, limit, limit/2, a page boundary …) for limits 4095 … 5 MiB with chunk sizes as-asked / 4096 / 32769 / 65536 and errors of every class injected just before, at and after the limit. The instrumented reader records bytes handed out, calls, and when the sentinel was really returned; expectations are derived from those observations. " +
 			"non-trivial = a short-read schedule or an injected fault actually occurred before the header was complete; distinct = distinct (chunk kind, zero reads, EOF-with-data, limit class, error offset class, error-with-data, previous-limit differs, outcome).",
 		Assumptions: []string{
 			"only conforming readers: never n > len(p), never endless (0, nil)",
@@ -691,6 +822,10 @@ func init() {
 				return
 			}
 			if p.Entry == "DetectFileSparse" {
+				c05Run(c, fw.Batch{Kind: "files", Idx: 0, Of: 1000})
+				return
+			}
+			if p.Entry == "DetectFilePath" || p.Entry == "DetectFileFifo" {
 				c05Run(c, fw.Batch{Kind: "files", Idx: 0, Of: 1000})
 				return
 			}
